@@ -13,7 +13,7 @@ parameters or aliased containers — so calling it twice gives the same answer a
 clause structurally: the `***` / highlight condition compares the deme's best fitness with the global best using `==` and
 tests optionality with `is None`, never by truthiness of a fitness value (the pinned defect hid the marker at 0.0); tree()
 passes the tree's best fitness to both the root line and the children; children are rendered recursively and only demes
-with metaepoch_count == 0 are omitted. (R20.5) the best the reports print is the best of the recorded histories (R04.1); in-place `+=` through an alias of a history element is a write."""
+with metaepoch_count == 0 are omitted. (R20.5) the best the reports print is the best of the recorded histories (R04.1); in-place `+=` through an alias of a history element is a write. Round 5: the header totals are not running sums built inside an optional part of the report; the level's candidates for its best are filtered only by `has a best individual`, never by the fitness value."""
 NOTE = """That the numbers rendered into the strings equal the accessors' values (label <-> accessor agreement) is not
 claimed: matching format strings would be a frozen-text proxy. The NaN tie-break draw in FunctionProblem.worse_than is
 tabled (reachable only when both fitness values are NaN)."""
